@@ -352,3 +352,47 @@ def run(ctx):
                     r6.violation("%s:%s:blocking" % (f.name, n["callee"]), "%s creates a blocking socket inside the event loop" % n["callee"], loc=f.loc(c))
     if ncre < 2:
         raise Broken("C20.R6: only %d socket-creating calls in the relay" % ncre)
+
+    # ------------------------------------------------------------------ R7
+    r7 = ctx.rule("C20.R7", "the length of a held run fits its variable: what xcm_receive may return (up to the buffer size) is stored without wrap-around")
+    nrecv = 0
+    for f in P.functions:
+        if not f.file.startswith("tools/xcmrelay/"):
+            continue
+        for c in f.calls("xcm_receive"):
+            cap = C.const_of(f, f.nodes[c]["args"][2])
+            if cap is None:
+                continue
+            nrecv += 1
+            # where does the result go?
+            res = None
+            par = f.parents().get(c)
+            while par is not None and f.nodes[par]["k"] in ("cast", "paren"):
+                par = f.parents().get(par)
+            if par is not None and f.nodes[par]["k"] == "decl":
+                res = [v for v in f.nodes[par]["vars"] if v.get("init") is not None and f.strip(v["init"]) == c]
+                res = res[0] if res else None
+            r7.instance("%s: xcm_receive(capacity %d)" % (f.qname, cap))
+            if res is None:
+                r7.violation("%s:result" % f.name, "the result of xcm_receive is not kept in a local", loc=f.loc(c))
+                continue
+            bad = None
+            for b, i, e, lhs, rhs, op in f.stores():
+                if rhs is None or op != "=":
+                    continue
+                rn = f.sn(rhs)
+                if rn["k"] == "ref" and rn.get("did") == res["did"]:
+                    ln = f.sn(lhs)
+                    t = (ln.get("ct") or ln.get("t") or "")
+                    sz = ln.get("sz") or 4
+                    unsigned = t.startswith("unsigned") or t.startswith("uint") or t in ("size_t", "_Bool")
+                    mx = (1 << (8 * sz)) - 1 if unsigned else (1 << (8 * sz - 1)) - 1
+                    if mx < cap:
+                        bad = (f.show(lhs), t, mx, e)
+            if bad:
+                r7.violation("%s:length-wraps" % f.name, "%s (%s, at most %d) receives the result of xcm_receive, which may be %d: a full buffer is recorded as a shorter - or empty - run, "
+                             "the bytes are dropped and the direction stalls" % (bad[0], bad[1], bad[2], cap), loc=f.loc(bad[3]))
+            else:
+                r7.ok("%s: every variable the received length is stored in can hold %d" % (f.qname, cap), "type range vs. buffer size")
+    if nrecv < 1:
+        raise Broken("C20.R7: no xcm_receive with a constant capacity in the relay")
